@@ -56,9 +56,10 @@ ANCHORS = [
     "onnxscript._internal.tape_builder:BuilderBase._cast_inputs",
     "onnxscript._internal.tape_builder:BuilderBase._input_to_ir_value",
     "onnxscript._internal.builder:GraphBuilder._get_or_create_constant",
+    "onnxscript._internal.builder:lift_initializers_to_constants",
 ]
 TIMEOUT = 900.0
-FRONTENDS = ("static", "eager", "builder", "builder-untyped")
+FRONTENDS = ("static", "eager", "builder", "builder-untyped", "builder-lifted")
 
 
 def EXHAUSTIVE(tier):
@@ -74,7 +75,10 @@ def thresholds(tier):
             "anchor:onnxscript._internal.autocast:cast_inputs": 16000,
             "anchor:onnxscript._internal.converter:Converter._emit_const": 8000,
             "anchor:onnxscript._internal.tape_builder:BuilderBase._cast_inputs": 20000,
-            "anchor:onnxscript._internal.builder:GraphBuilder._get_or_create_constant": 16000}
+            "anchor:onnxscript._internal.builder:GraphBuilder._get_or_create_constant": 16000,
+            "graphs_lifted": 400, "lifted_constants_read": 8000,
+            "infix_tuples": 900, "infix_static_ok": 900, "infix_eager_ok": 700, "infix_rule_default": 50,
+            "infix_rule_sibling": 800, "infix_value_checked_against_rule": 1400}
     for fe in FRONTENDS:
         base[fe + "_ok"] = 8000
         # a front end that starts refusing a whole class of literals must not read as "held"
@@ -93,7 +97,9 @@ def cases(tier, seed):
     chunks = [[] for _ in range(nchunk)]
     for i, p in enumerate(pairs):
         chunks[i % nchunk].append(p)
-    return [{"kind": "chunk", "i": i, "seed": seed, "schemas": c} for i, c in enumerate(chunks) if c]
+    from . import c12_infix
+
+    return [{"kind": "chunk", "i": i, "seed": seed, "schemas": c} for i, c in enumerate(chunks) if c] + c12_infix.specs(tier, seed)
 
 
 # ================================================================ worker state
@@ -375,6 +381,79 @@ def _builder_read(out, k, likes, ev):
     return ("unobserved", f"operand produced by {p.op_type if p is not None else None}"), None
 
 
+def _const_node_array(node):
+    """value of a Constant node as ONNX defines it, read from the node's *serialized* form -> np.ndarray | None"""
+    import onnx_ir as ir
+    from onnx import numpy_helper
+
+    proto = ir.serde.serialize_node(node)
+    if proto.op_type != "Constant" or proto.domain not in ("", "ai.onnx") or len(proto.attribute) != 1:
+        return None
+    a = proto.attribute[0]
+    if a.name == "value" and a.HasField("t"):
+        return numpy_helper.to_array(a.t)
+    if a.name == "value_float":
+        return np.array(a.f, dtype=np.float32)
+    if a.name == "value_int":
+        return np.array(a.i, dtype=np.int64)
+    if a.name == "value_floats":
+        return np.array(list(a.floats), dtype=np.float32)
+    if a.name == "value_ints":
+        return np.array(list(a.ints), dtype=np.int64)
+    return None
+
+
+def _lift_and_read(graph, traced, ev):
+    """The same traced graph as a *function body*: lift_initializers_to_constants (what build_function does) and read every
+    literal operand again, this time from the serialized Constant node that now produces it."""
+    if not traced:
+        return
+    try:
+        from onnxscript._internal.builder import lift_initializers_to_constants
+    except Exception:
+        _hit(ev, "lift_api_absent")
+        return
+    try:
+        lift_initializers_to_constants(graph)
+    except Exception as e:
+        for t, _out, _likes in traced:
+            t["obs"]["builder-lifted"] = ("refused", _msg(e))
+        return
+    _hit(ev, "graphs_lifted")
+    import onnx_ir as ir
+
+    for t, out, likes in traced:
+        k = t["it"]["lay"]["k"]
+        v0 = out[0] if isinstance(out, (list, tuple)) else out
+        if not isinstance(v0, ir.Value) or v0.producer() is None:
+            t["obs"]["builder-lifted"] = ("unobserved", "op call returned no node output")
+            continue
+        node = v0.producer()
+        if k >= len(node.inputs) or node.inputs[k] is None:
+            t["obs"]["builder-lifted"] = ("ok", "missing", None, None)
+            continue
+        p = node.inputs[k].producer()
+        tgt = None
+        if p is not None and p.op_type == "CastLike" and len(p.inputs) == 2 and p.inputs[0] is not None:
+            tgt = likes.get(id(p.inputs[1]))
+            p = p.inputs[0].producer()
+            if tgt is None:
+                t["obs"]["builder-lifted"] = ("unobserved", "CastLike not of the form CastLike(constant, sibling)")
+                continue
+        arr = _const_node_array(p) if p is not None else None
+        if arr is None:
+            t["obs"]["builder-lifted"] = ("unobserved", f"after lifting the operand is produced by {p.op_type if p is not None else None}")
+            continue
+        _hit(ev, "lifted_constants_read")
+        if tgt is None:
+            t["obs"]["builder-lifted"] = _ok(arr)
+        elif not isinstance(tgt, int):
+            t["obs"]["builder-lifted"] = ("ok", f"other:{tgt}", None, None)
+        else:
+            r = cast_eval(arr, tgt, ev)
+            t["obs"]["builder-lifted"] = _ok(r) if r is not None else ("ok", tgt, None, None)
+
+
 # ================================================================ one schema
 def _drive(name, since, version, seed, acc):
     ev = acc["events"]
@@ -509,6 +588,7 @@ def _drive(name, since, version, seed, acc):
             for gname in graphs:
                 kw[gname] = ir.Graph(inputs=[], outputs=[], nodes=[], name=gname, opset_imports={"": version})
             uses: dict = {}   # id(initializer) -> (ir.Value, [tuple ...])
+            traced: list = []  # (tuple, op result, likes) of this graph, re-read after lifting
             nval = 0
             for ci, combo in enumerate(it["combos"]):
                 ts = {t["lidx"]: t for t in by_item.get((it["li"], ci), [])}
@@ -537,10 +617,13 @@ def _drive(name, since, version, seed, acc):
                     t["obs"][fe] = obs
                     if init is not None:
                         uses.setdefault(id(init), (init, []))[1].append(t)
+                    if typed:
+                        traced.append((t, out, likes))
             # ---- aliasing scan of the constant cache of this builder
             cache = getattr(gb, "_constant_cache", None)
             if cache is None:
                 _hit(ev, "builder_cache_absent")
+                _lift_and_read(graph, traced, ev)
                 continue
             for key, cv in cache.items():
                 _hit(ev, "cache_entries_scanned")
@@ -577,6 +660,7 @@ def _drive(name, since, version, seed, acc):
                                 f"cache key {key!r}; op.{name}(opset {version}) argument {lay['k']}",
                                 {"op": name, "version": version, "k": lay["k"], "cache_key": repr(key), "initializer": cv.name,
                                  "typed_siblings": typed})
+            _lift_and_read(graph, traced, ev)
 
     # ---- oracle
     for t in tuples:
@@ -629,7 +713,8 @@ def _judge(name, since, version, t, alias_tids, acc):
                              "observed": {fe: [G.DT_NAME.get(o[1], o[1]), o[2], (o[3] or b"").hex()] for fe, o in oks.items()}}
     where = {"op": name, "since": since, "version": version, "k": lay["k"], "call": _call_text(name, t, acc["formals"]), "rule": rule}
     for fe, o in oks.items():
-        aliased = fe in alias_tids and t["tid"] in alias_tids[fe]
+        afe = "builder" if fe == "builder-lifted" else fe
+        aliased = afe in alias_tids and t["tid"] in alias_tids[afe]
         got = o[1]
         if got != E:
             if aliased:
@@ -689,6 +774,10 @@ def run_case(spec):
     import warnings
 
     warnings.filterwarnings("ignore")
+    if spec.get("kind") == "infix":
+        from . import c12_infix
+
+        return c12_infix.drive(spec, sys.modules[__name__])
     events: dict = {}
     viol: dict = {}
     refusals: dict = {}
